@@ -35,6 +35,8 @@ props! {
     "C12" => c12,
     "C13" => c13,
     "C14" => c14,
+    "C16" => c16,
+    "C17" => c17,
 }
 
 pub fn iso_space(_prop: &str, _mode: &str, _tier: Tier) -> Option<Box<dyn IsoSpace>> {
